@@ -449,7 +449,7 @@ func uploadMain(rc *RunCtx) {
 		// memory: what the system allocates while serving requests is
 		// bounded by what it serves, not by the numbers in the requests
 		h := heapAllocBytes()
-		bound := uint64(64<<20) + 64*uint64(uploaded())
+		bound := uint64(64<<20) + 256*uint64(uploaded()) // the harness itself copies every uploaded byte several times
 		if h-heap0 > bound {
 			rc.Fail("C16", "alloc-bound", "", "the process allocated %d MiB while %d bytes were uploaded (bound %d MiB): allocation follows a length field of a request", (h-heap0)>>20, uploaded(), bound>>20)
 		}
